@@ -380,7 +380,6 @@ Proof. intros s r ops E. apply reach; [intros; apply inv_step_%(cn)s; assumption
        'argsv': ' '.join({'data': '(VData d)', 'sampling': '(VNum a_sampling)', 'scale_by_freq': '(VBool a_scale_by_freq)'}.get(p, 'a_' + p)
                           for p in params)}
     thms = ['call_spec_' + cn, 'inv_step_' + cn, 'inv_init_' + cn, 'inv_reachable_' + cn]
-    t += 'Print Assumptions inv_reachable_%s.\n' % cn
     return t, thms
 
 
